@@ -7,7 +7,14 @@ func (cw *CodeWriter) WriteLeadingComments(comments []string) {
 
 	for i, comment := range comments {
 		isComment := len(comment) > 0
-		if i == 0 {
+		if cw.Builder.Len() == 0 {
+			// nothing has been written yet: the output must not begin with
+			// whitespace (it is trimmed afterwards, which would move every
+			// line of the source map)
+			if !isComment {
+				continue
+			}
+		} else if i == 0 {
 			if isComment {
 				cw.writeRaw(" ")
 			}
@@ -19,6 +26,10 @@ func (cw *CodeWriter) WriteLeadingComments(comments []string) {
 			cw.writeRaw("//")
 		}
 		cw.writeRaw(comment)
+	}
+
+	if cw.Builder.Len() == 0 {
+		return
 	}
 
 	// Clear pendings and move to the next line
